@@ -174,7 +174,7 @@ class Run:
     def finish(self, violations, level="model_checking", extra_cov=None):
         """violations: list of dict(prop, key, replay(dict) ...) for THIS property only."""
         if self.defer:
-            self.pending += violations
+            self.pending += [v for v in violations if not any(v is p for p in self.pending)]
             return 0
         known, fixed = load_findings()
         new, seen_known = [], {}
